@@ -89,6 +89,33 @@ def DIAG(**k):
 LISP_OPS = {"add": "+", "sub": "-", "mul": "*", "div": "/", "quot": "quot", "rem": "rem", "mod": "mod"}
 
 
+def qrm_bounded_spec(y: int, timeout: float, lo=-25, hi=25) -> Spec:
+    """bounded dividend: the identities and call-form independence, decided by exhausting the path tree"""
+    mod = MODULE + f'''
+FS = {{}}
+for _op in ("quot", "rem", "mod"):
+    FS[_op] = (lisp_eval("(fn [x y] (" + _op + " x y))", "verif.c20.inl"),
+               lisp_eval("(fn [x y] (" + _op + " x y))", "verif.c20.noinl", opts={{"inline-functions": False}}),
+               lisp_eval("(fn [x y] (apply " + _op + " [x y]))", "verif.c20.app"))
+def DIAG(**k):
+    x = k["x"]; y = {y}
+    return {{op: [f(x, y) for f in fs] for op, fs in FS.items()}}
+'''
+    body = f'''    y = {y}
+    res = {{}}
+    for op, fs in FS.items():
+        a, b, c = [f(x, y) for f in fs]
+        if not (a == b and b == c and type(a) is int and type(b) is int and type(c) is int):
+            return False
+        res[op] = a
+    q, r, m = res["quot"], res["rem"], res["mod"]
+    return (x == y * q + r and (r == 0 or sign(r) == sign(x)) and abs(r) < abs(y)
+            and (m == 0 or sign(m) == sign(y)) and abs(m) < abs(y) and (x - m) % y == 0)'''
+    src = harness("x: int", body, pre=[f"{lo} <= x <= {hi}"], module_code=mod, warm=[(7,), (-6,), (0,)])
+    return Spec(f"quot-rem-mod/bounded/y={y}", src, timeout=timeout, bound=f"{lo} <= x <= {hi}; y = {y}; direct, non-inlined and apply call forms",
+                meta={"kind": "qrm-bounded", "y": str(y)})
+
+
 def inline_spec(opname: str, yexpr, timeout: float) -> Spec:
     lop = LISP_OPS[opname]
     sym_y = yexpr is None
@@ -134,16 +161,34 @@ def visit(self, node):
     return orig(self, node)
 O.PythonASTOptimizer.visit = visit
 WANT = {"+", "-", "*", "/", "<", ">", "quot", "rem", "mod", "inc", "dec", "zero?", "pos?", "neg?", "abs"}
+from basilisp.lang.util import munge
 src = open(sys.argv[1]).read()
 ns = rt.Namespace.get_or_create(sym.symbol("basilisp.core"))
+forms = {}
 with rt.ns_bindings("basilisp.core"):
     for form in rd.read_str(src, resolver=rt.resolve_alias):
         try:
             head, name = form.first, form.rest.first
         except AttributeError:
             continue
-        if getattr(head, "name", None) == "defn" and getattr(name, "name", None) in WANT:
-            cc.compile_and_exec_form(form, cc.CompilerContext("<ir>"), ns)
+        if getattr(head, "name", None) == "defn" and getattr(name, "name", None):
+            forms.setdefault(name.name, form)
+    munged = {munge(k): k for k in forms}
+    want, done = set(WANT), set()
+    # closure: every core function the captured IR refers to is captured too (so a rewrite of rem in terms of mod, =, pos? ...
+    # is still interpreted from the compiler's own output)
+    while len(done) < 60:
+        todo = sorted(n for n in want if n not in done and n in forms)
+        if not todo:
+            break
+        for n in todo:
+            cc.compile_and_exec_form(forms[n], cc.CompilerContext("<ir>"), ns)
+            done.add(n)
+        defined = {st.name for mod in caps for st in mod.body if isinstance(st, ast.FunctionDef)}
+        used = {n.id for mod in caps for n in ast.walk(mod) if isinstance(n, ast.Name) and isinstance(n.ctx, ast.Load)}
+        for u in used - defined:
+            if u in munged:
+                want.add(munged[u])
 out = []
 for mod in caps:
     for st in mod.body:
@@ -217,11 +262,13 @@ def ir_interp(ir_src):
         base = n.split("_")[0]
         if base == "numbers":
             m.globals[n] = I.module("src/basilisp/lang/numbers.py")
-        elif base in ("math", "operator", "runtime"):
+        elif base == "runtime":
+            m.globals[n] = ExtModule(base, fallback="src/basilisp/lang/runtime.py")
+        elif base in ("math", "operator"):
             m.globals[n] = ExtModule(base)
     m.globals["basilisp"] = ExtModule("basilisp")
     X["basilisp.lang"] = ExtModule("basilisp.lang")
-    X["basilisp.lang.runtime"] = ExtModule("runtime")
+    X["basilisp.lang.runtime"] = ExtModule("runtime", fallback="src/basilisp/lang/runtime.py")
     return I, m
 
 
@@ -340,6 +387,46 @@ def type_contagion_scenarios():
     return {op: mk(op) for op in ("add", "subtract", "multiply", "divide")}
 
 
+B_REPLAY = r'''
+from fractions import Fraction
+NAME, CEX, META = "@NAME@", @CEX@, @META@
+def sign(v): return (v > 0) - (v < 0)
+def norm_ok(v): return type(v) is int or (isinstance(v, Fraction) and v.denominator != 1)
+bad = []
+if NAME.startswith("ir/"):
+    import re
+    if "x=p/" in NAME:
+        den = int(re.search(r"x=p/(\d+)", NAME).group(1)); x = Fraction(int(CEX["p"]), den)
+        x = x.numerator if x.denominator == 1 else x
+    else:
+        x = int(CEX["x"])
+    y = int(CEX["y"]) if "y" in CEX else int(re.search(r"y=(-?\d+)", NAME).group(1))
+    q, r, m = cfn("quot")(x, y), cfn("rem")(x, y), cfn("mod")(x, y)
+    if type(q) is not int or not norm_ok(r) or not norm_ok(m): bad.append("result representation")
+    if not (x == y * q + r): bad.append("x != y*quot + rem")
+    if not (r == 0 or sign(r) == sign(x)) or not abs(r) < abs(y): bad.append("rem sign/magnitude")
+    if not (m == 0 or sign(m) == sign(y)) or not abs(m) < abs(y): bad.append("mod sign/magnitude")
+    if (x - m) / y != (x - m) // y: bad.append("mod not congruent to x")
+    if bad:
+        print(f"REPRODUCED: x={x} y={y}: quot={q!r} rem={r!r} mod={m!r}: " + "; ".join(bad)); sys.exit(1)
+else:
+    from basilisp.lang import numbers as N
+    def val(n):
+        if n in CEX: return int(CEX[n])
+        return Fraction(int(CEX[n + "_num"]), 3)
+    a, b = val("a"), val("b")
+    op = META["what"]
+    got = getattr(N, op)(a, b)
+    want = {"add": lambda: Fraction(a) + Fraction(b), "subtract": lambda: Fraction(a) - Fraction(b), "multiply": lambda: Fraction(a) * Fraction(b),
+            "divide": lambda: Fraction(a) / Fraction(b)}[op]()
+    if got != want or not norm_ok(got) or (type(got) is int) != (want.denominator == 1):
+        print(f"REPRODUCED: numbers.{op}({a!r}, {b!r}) = {got!r}, exact value {want}"); sys.exit(1)
+    if op in ("add", "multiply") and type(getattr(N, op)(b, a)) is not type(got):
+        print(f"REPRODUCED: numbers.{op} result type depends on operand order for {a!r}, {b!r}"); sys.exit(1)
+print("HOLDS")
+'''
+
+
 def run_B(rep, tier):
     import json as _json
     import os as _os
@@ -392,16 +479,15 @@ def run_B(rep, tier):
             res.verdict, res.detail = PROVED, f"unsat on all {r['stats']['paths']} paths"
         elif r["status"] == "refuted":
             res.witness = {"inputs": r["cex"], "observed": r.get("extra")}
-            x = r["cex"].get("x", r["cex"].get("p"))
-            body = f'''
-import basilisp.main as _m, importlib
-_m.init()
-from basilisp.lang import runtime as rt, symbol as sym
-from fractions import Fraction
-print("REPRODUCED: {name} model {r["cex"]}: needs manual triage") ; sys.exit(1)
-'''
-            res.detail = "model: " + _json.dumps(r["cex"])[:200] + " (no automatic replay for IR obligations: reported as inconclusive)"
-            rep.nonrepro += 1
+            from ..chx.lisp import PRELUDE
+            path = env.write_replay(rep.prop, name, PRELUDE + B_REPLAY.replace("@NAME@", name).replace("@CEX@", repr(r["cex"])).replace("@META@", repr(meta)))
+            ok, line = env.replay_reproduces(path, timeout=120)
+            if ok:
+                res.verdict, res.replay, res.reproduced, res.detail = REFUTED, path, True, line[:300]
+                rep.classify_refutation(res, {"kind": "ir-" + meta["what"]}, line[:200])
+            else:
+                rep.nonrepro += 1
+                res.detail = "model " + _json.dumps(r["cex"])[:200] + " does not reproduce on the real functions: " + line[:150]
         elif r["status"] == "error":
             raise env.HarnessError(f"PySym crashed on {name}: {r['message']}")
         else:
@@ -435,15 +521,19 @@ def DIAG(**k):
 
 
 def contagion_spec(timeout, first):
-    body = '''    a, b = U[i], U[j]
+    body = f'''    a = U[{first}]
+    b = None
+    for k in range(13):          # explicit selection: one path per second operand, concrete values on every path
+        if j == k:
+            b = U[k]
     for name, f in OPS.items():
         if name == "/" and b == 0:
             continue
         r = f(a, b)
         want = expected_type(name, a, b)
         if want in (int, Fraction):
-            exact = {"+": lambda: Fraction(a) + Fraction(b), "-": lambda: Fraction(a) - Fraction(b), "*": lambda: Fraction(a) * Fraction(b),
-                     "/": lambda: Fraction(a) / Fraction(b)}[name]()
+            exact = {{"+": lambda: Fraction(a) + Fraction(b), "-": lambda: Fraction(a) - Fraction(b), "*": lambda: Fraction(a) * Fraction(b),
+                     "/": lambda: Fraction(a) / Fraction(b)}}[name]()
             if r != exact or not norm_ok(r) or (type(r) is int) != (exact.denominator == 1):
                 return False
         elif type(r) is not want:
@@ -457,7 +547,7 @@ def contagion_spec(timeout, first):
             if type(r3) is not type(r) or not (r3 == r or (r != r and r3 != r3)):
                 return False
     return True'''
-    src = harness("i: int, j: int", body, pre=[f"i == {first}", "0 <= j < 13"], module_code=CONTAGION, warm=[(0, 4)])
+    src = harness("j: int", body, pre=["0 <= j < 13"], module_code=CONTAGION.replace("U[k[\"i\"]]", f"U[{first}]"), warm=[(4,)])
     return Spec(f"type-contagion/first-operand-{first}", src, timeout=timeout, bound="operand pair solver-chosen from a 13-element universe of int / ratio / decimal / float values incl. huge ones",
                 meta={"kind": "contagion"})
 
@@ -488,9 +578,14 @@ def run(rep, tier, seed):
                                 str(y), f"div-y={y}", to))
     for op in ("add", "sub", "mul"):
         specs.append(inline_spec(op, None, to))
-    for op in ("div", "quot", "rem", "mod"):
-        for y in ([3, -2] if quick else [1, 3, -2, 7, -12]):
-            specs.append(inline_spec(op, y, to))
+    for y in ([3, -2] if quick else [1, 3, -2, 7, -12]):
+        specs.append(inline_spec("div", y, to))
+    if not quick:
+        for op in ("quot", "rem", "mod"):
+            for y in [1, 3, -2, 7, -12]:
+                specs.append(inline_spec(op, y, to))
+    for y in ([1, -1, 2, -3, 5, -7] if quick else divisors):
+        specs.append(qrm_bounded_spec(y, to * 4))
     rep.bounds = {"dividend": "unbounded Python int (z3 Int)", "divisors": divisors + huge,
                   "ratio_denominators": [2, 3] if quick else [2, 3, 4, 5, 6], "per_condition_timeout_s": to}
     rep.outside = ["symbolic x symbolic division (nonlinear): divisors are enumerated", "float/decimal operand values",
